@@ -2062,6 +2062,9 @@ func (ctx Ctx) constDecl(d *ast.GenDecl) []coq.Decl {
 	var specs []coq.Decl
 	for _, spec := range d.Specs {
 		vs := spec.(*ast.ValueSpec)
+		if len(vs.Names) == 1 && vs.Names[0].Name == "_" {
+			continue // nothing can refer to a blank constant or variable
+		}
 		ctx.dep.addName(vs.Names[0].Name)
 		specs = append(specs, ctx.constSpec(vs))
 	}
@@ -2076,6 +2079,9 @@ func (ctx Ctx) globalVarDecl(d *ast.GenDecl) []coq.Decl {
 	var specs []coq.Decl
 	for _, spec := range d.Specs {
 		vs := spec.(*ast.ValueSpec)
+		if len(vs.Names) == 1 && vs.Names[0].Name == "_" {
+			continue // nothing can refer to a blank constant or variable
+		}
 		ctx.dep.addName(vs.Names[0].Name)
 		specs = append(specs, ctx.constSpec(vs))
 	}
@@ -2240,6 +2246,10 @@ func (ctx Ctx) callExprInterface(cvs []coq.Decl, r *ast.CallExpr) []coq.Decl {
 func (ctx Ctx) maybeDecls(d ast.Decl) []coq.Decl {
 	switch d := d.(type) {
 	case *ast.FuncDecl:
+		if d.Recv == nil && d.Name.Name == "_" {
+			// a blank function cannot be called and "Definition _" is not Coq
+			return nil
+		}
 		var cvs []coq.Decl
 		if !ctx.SkipInterfaces {
 			if d.Body == nil {
